@@ -546,7 +546,10 @@ impl GroupConfig {
             Box::new(
                 BufReader::new(stdin())
                     .split(b'\n')
-                    .map(move |line| base_dir.resolve(path_from_bytes(line.unwrap()))),
+                    .map(|line| line.unwrap())
+                    // an empty line is not a path, and it must not stand for the working directory
+                    .filter(|line| !line.is_empty())
+                    .map(move |line| base_dir.resolve(path_from_bytes(line))),
             )
         } else {
             Box::new(
